@@ -1,4 +1,5 @@
 import Martian.Typing
+import Martian.TypingPipeline
 import Driver.Util
 import Driver.C17
 
@@ -27,6 +28,18 @@ Operations (`C07.<op>\t<arg>…`):
   ftype <type> <path>           → `<type>` | `none`
   lit   <type> <exp>            → `<validExp> <json | none> <valid> <valid after filter>`   (no references)
   proj  <type> <json> <path>    → `<json>` | `none`
+
+Pipelines (Martian/TypingPipeline.lean):
+  wild  ::= w- | wself | wref <exp>
+  mods  ::= <local 0|1> <preflight 0|1> <volatile 0|1> <n> (L t|f | R t|f | V t|f | D <exp>){n}
+  cstm  ::= <id> <callee> <s|p> <params> <nouts> (<out> <type>){nouts} <binds> <wild> <mods>
+  pipe  ::= <name> <nins> (<id> <type>){nins} <nouts> (<id> <type>){nouts} <ncalls> <cstm>{ncalls}
+            <binds> <wild> <nretain> <exp>{nretain}
+  pipe    <pipe>               → `ok (<callid>:<shape>)*` | `call <i> dupcall` | `call <i> mods <cls,…>`
+                                 | `call <i> binds <cls,…>` | `ret <cls,…>` | `retain <i>`
+                                 (first failure, in the order of `checkPipeline`; must agree with `validPipeline`)
+  sretain <nouts> (<out> <type>){nouts} <hexlist>   → `true` | `false`
+  strict  <env> <type> <exp>   → `<validExp> <overStrict>`
 -/
 namespace Driver.C07
 open Martian.Json Martian.Types Martian.Typing Driver
@@ -178,6 +191,114 @@ def showOptTy : Option Ty → String
 def emptyEnv : Env := { self := [], calls := [] }
 def emptyStore : Store := { self := [], calls := [] }
 
+def parseWild : List String → Option (Option Wild × List String)
+  | "w-" :: r => some (none, r)
+  | "wself" :: r => some (some .self, r)
+  | "wref" :: r => do let (e, r) ← parseExp r; pure (some (.ref e), r)
+  | _ => none
+
+def parseBoolTok : String → Option Bool
+  | "t" => some true | "f" => some false | "1" => some true | "0" => some false | _ => none
+
+partial def parseModItems : Nat → List String → Option (List ModItem × List String)
+  | 0, r => some ([], r)
+  | c + 1, "L" :: b :: r => do
+    let b ← parseBoolTok b; let (xs, r) ← parseModItems c r; pure (.loc b :: xs, r)
+  | c + 1, "R" :: b :: r => do
+    let b ← parseBoolTok b; let (xs, r) ← parseModItems c r; pure (.pre b :: xs, r)
+  | c + 1, "V" :: b :: r => do
+    let b ← parseBoolTok b; let (xs, r) ← parseModItems c r; pure (.vol b :: xs, r)
+  | c + 1, "D" :: r => do
+    let (e, r) ← parseExp r; let (xs, r) ← parseModItems c r; pure (.dis e :: xs, r)
+  | _, _ => none
+
+def parseMods : List String → Option (Mods × List String)
+  | l :: p :: v :: n :: r => do
+    let l ← parseBoolTok l; let p ← parseBoolTok p; let v ← parseBoolTok v
+    let n ← n.toNat?
+    let (us, r) ← parseModItems n r
+    pure ({ kwLocal := l, kwPreflight := p, kwVolatile := v, usings := us }, r)
+  | _ => none
+
+def parseStm : List String → Option (CallStm × List String)
+  | id :: callee :: kind :: r => do
+    let id ← bytesOfHex id
+    let callee ← bytesOfHex callee
+    let isStage ← (match kind with | "s" => some true | "p" => some false | _ => none)
+    let (params, r) ← counted parseTyped r
+    let (outs, r) ← counted parseTyped r
+    let (binds, r) ← counted parseBinds r
+    let (w, r) ← parseWild r
+    let (m, r) ← parseMods r
+    pure ({ id := id, callee := { name := callee, isStage := isStage, params := params, outs := Fields.ofList outs },
+            binds := binds, wild := w, mods := m }, r)
+  | _ => none
+
+partial def parseStms : Nat → List String → Option (List CallStm × List String)
+  | 0, r => some ([], r)
+  | c + 1, r => do
+    let (x, r) ← parseStm r
+    let (xs, r) ← parseStms c r
+    pure (x :: xs, r)
+
+def parsePipe : List String → Option (Pipeline × List String)
+  | name :: r => do
+    let name ← bytesOfHex name
+    let (ins, r) ← counted parseTyped r
+    let (outs, r) ← counted parseTyped r
+    let (calls, r) ← counted parseStms r
+    let (ret, r) ← counted parseBinds r
+    let (w, r) ← parseWild r
+    let (retain, r) ← counted parseExps r
+    pure ({ name := name, ins := ins, outs := Fields.ofList outs, calls := calls, ret := ret, retWild := w,
+            retain := retain }, r)
+  | [] => none
+
+def showModErr : ModErr → String
+  | .dup => "dup" | .type => "type" | .conflict => "conflict" | .unsupported => "unsupported"
+  | .preBinding => "preBinding" | .preOutput => "preOutput"
+
+def showBindErr : BindErr → String
+  | .wildcard => "wildcard" | .dup => "dup" | .unknown => "unknown" | .missing => "missing"
+  | .type => "type" | .mapping => "mapping"
+
+def showShapeTok (sh : Option SplitShape) : String := (showShape sh).replace " " ""
+
+/-- first failure of the calls, with its error classes (diagnosis next to `checkCalls`) -/
+def diagCalls (Γ : Env) (i : Nat) (acc : String) : List CallStm → Except String (Env × String)
+  | [] => .ok (Γ, acc)
+  | c :: r =>
+    if (Γ.calls.lookup c.id).isSome then .error s!"call {i} dupcall" else
+    match modErrs Γ c.callee c.binds c.wild c.mods with
+    | e :: es => .error (s!"call {i} mods " ++ ",".intercalate ((e :: es).map showModErr))
+    | [] =>
+      match callErrsW Γ c.callee.params c.binds c.wild with
+      | e :: es => .error (s!"call {i} binds " ++ ",".intercalate ((e :: es).map showBindErr))
+      | [] =>
+        match checkCallW Γ c.callee.params c.binds c.wild with
+        | none => .error s!"call {i} binds inconsistent-model"
+        | some sh =>
+          diagCalls { Γ with calls := Γ.calls ++ [(c.id, c.sig sh)] } (i + 1)
+            (acc ++ " " ++ hexOfBytes c.id ++ ":" ++ showShapeTok sh) r
+
+def firstBad (Γ : Env) : Nat → List Exp → Option Nat
+  | _, [] => none
+  | i, e :: r => if pipeRetainOk Γ [e] then firstBad Γ (i + 1) r else some i
+
+def diagPipe (p : Pipeline) : String :=
+  let verdict :=
+    match diagCalls { self := p.ins, calls := [] } 0 "" p.calls with
+    | .error s => s
+    | .ok (Γ, acc) =>
+      match callErrsW Γ p.outs.toList p.ret p.retWild with
+      | e :: es => "ret " ++ ",".intercalate ((e :: es).map showBindErr)
+      | [] =>
+        match firstBad Γ 0 p.retain with
+        | some i => s!"retain {i}"
+        | none => "ok" ++ acc
+  -- the diagnosis must agree with the function the theorems are about
+  if validPipeline p == verdict.startsWith "ok" then verdict else "model-inconsistent " ++ verdict
+
 def handle (op : String) (args : List String) : Option String :=
   match op, args with
   | "exp", [env, t, e] => do
@@ -217,6 +338,13 @@ def handle (op : String) (args : List String) : Option String :=
     match project t v p with
     | some w => pure (showJ w)
     | none => pure "none"
+  | "pipe", [p] => do
+    let p ← whole parsePipe p
+    pure (diagPipe p)
+  | "sretain", [outs, ids] => do
+    let outs ← whole (counted parseTyped) outs
+    let ids ← parseHexList ids
+    pure (boolStr (stageRetainOk (Fields.ofList outs) ids))
   | _, _ => none
 
 end Driver.C07
